@@ -483,6 +483,17 @@ fn declare(
 					.collect();
 			let mut param_types: Vec<LLVMTypeRef> = param_types?;
 
+			// Constants are private globals, but in LLVM they share a namespace
+			// with functions. Make sure the function keeps its own name.
+			unsafe {
+				let clashing_global =
+					LLVMGetNamedGlobal(llvm.module, function_name.as_ptr());
+				if !clashing_global.is_null()
+				{
+					LLVMSetValueName(clashing_global, cstr!(""));
+				}
+			}
+
 			let function: LLVMValueRef = unsafe {
 				let function_type = LLVMFunctionType(
 					return_type,
